@@ -698,6 +698,8 @@ func init() {
 					hist = append(hist, append(append([]string{}, s...), "re"), append(append([]string{}, s...), "re", "put:c"))
 				}
 			}
+			// journals of several 32 KiB blocks: records that span blocks and journal reads
+			hist = append(hist, []string{"SputX:a", "re"}, []string{"Sput:b", "SputX:a", "Sput:c", "re"}, []string{"SputX:a", "SputX:b", "re", "Sput:c"})
 			rd, rmax := 5, 6
 			if !quick {
 				rd, rmax = 7, 16
